@@ -1,16 +1,16 @@
-"""C11 hunt: marker <-> specifier bridge for python_version / python_full_version atoms.
+"""Hunt script for property C11 on the unmodified tree (fourth round).
 
-Run as:  cd /tmp/wt/C11h && PYTHONPATH=/tmp/wt/C11h/src /venv/bin/python hunt_C11.py [N]
+No NEW violation was found; this script re-runs (in a reduced form, about 7 minutes; `full` takes much longer) the
+searches that were done and prints every disagreement it sees (none on the unmodified
+tree).  Known families (wildcard operands under ordering operators, in / not in,
+===, pre/post/dev/local, ...) are filtered out.
 
-Prints every NEW violation found on the unmodified tree (concrete input, what the
-library does, what packaging says), then re-runs the three fuzzers used for the search
-(N random cases each, default 3000) and prints how many cases disagreed with the oracle.
-Known families (pre/post/dev/local versions, in / not in, ===, post-release upper
-bounds, pre-release-only ranges, PEP 440 exclusion rules, ...) are not generated.
+Run: cd /tmp/wt/C11j && PYTHONPATH=/tmp/wt/C11j/src /venv/bin/python hunt_C11.py [full]
 """
 
 from __future__ import annotations
 
+import itertools
 import random
 import sys
 
@@ -19,241 +19,187 @@ from packaging.specifiers import SpecifierSet
 
 from dep_logic.markers import parse_marker
 from dep_logic.markers.single import MarkerExpression, _has_exact_specifier
-from dep_logic.specifiers import parse_version_specifier
+from dep_logic.specifiers import InvalidSpecifier, parse_version_specifier
 
-N = int(sys.argv[1]) if len(sys.argv) > 1 else 3000
-
-
-def outcome(f):
-    try:
-        return f()
-    except Exception as e:  # noqa: BLE001
-        return f"{type(e).__module__}.{type(e).__name__}: {e}"
+FULL = len(sys.argv) > 1 and sys.argv[1] == "full"
+OPS = ["<", "<=", ">", ">=", "==", "!=", "~="]
+found = 0
 
 
-# ------------------------------------------------------------------ NEW violation(s)
-print("=" * 78)
-print("NEW 1: a version atom `name == \"=V\"` is an arbitrary-equality atom in disguise")
-print("=" * 78)
-print(
-    "op and operand are concatenated (f\"{op}{value}\"), so `==` + \"=3.8\" is read as\n"
-    "`===3.8` by MarkerExpression._get_specifier.  The guard that keeps `===` atoms out\n"
-    "of the specifier algebra (_has_exact_specifier: marker.op == \"===\") does not see it,\n"
-    "so combining the atom with another one on the same variable goes through\n"
-    "ArbitrarySpecifier.__or__ and raises a bare ValueError out of parse_marker / `|`.\n"
-    "packaging parses and evaluates the very same marker without complaint.\n"
-)
-for text in (
-    'python_full_version == "=3.8" or python_full_version >= "3.9"',
-    'python_version == "=3.8" or python_version != "3.8"',
-    'python_full_version >= "3.9" or python_full_version == "=3.8"',
-):
-    ref = Marker(text)
+def report(*args: object) -> None:
+    global found
+    found += 1
+    if found <= 40:
+        print("VIOLATION", *args)
+
+
+def env(v: str) -> dict[str, str]:
+    return {"python_full_version": v, "python_version": ".".join(v.split(".")[:2])}
+
+
+# --------------------------------------------------------------------------------------
+# 1. every atom (both orientations): packaging vs evaluate vs specifier view, and the
+#    atom rebuilt by from_specifier from that view
+# --------------------------------------------------------------------------------------
+def hunt_atoms() -> int:
+    majors = ("0", "1", "2", "3", "4", "03", "10") if FULL else ("2", "3", "03", "10")
+    minors = ("0", "1", "7", "8", "9", "10", "08", "00") if FULL else ("0", "8", "9", "10", "08")
+    patches = ("0", "1", "9", "10", "00") if FULL else ("0", "1", "10")
     envs = [
-        {"python_full_version": v, "python_version": v[:3]}
-        for v in ("3.8", "3.8.0", "3.9.1")
+        f"{a}.{b}.{c}"
+        for a in ((0, 1, 2, 3, 4, 10) if FULL else (2, 3, 4, 10))
+        for b in ((0, 1, 2, 7, 8, 9, 10, 11, 12) if FULL else (0, 7, 8, 9, 10, 11))
+        for c in ((0, 1, 2, 9, 10, 11) if FULL else (0, 1, 10))
     ]
-    print("input     :", text)
-    print("packaging : parses; evaluates", [ref.evaluate(e) for e in envs],
-          "on python_full_version 3.8 / 3.8.0 / 3.9.1")
-    print("dep_logic : parse_marker ->", outcome(lambda: str(parse_marker(text))))
-    print("expected  : a marker (InvalidMarker at worst), never a bare ValueError")
-    print()
-atom = parse_marker('python_full_version == "=3.8"')
-print("the lone atom:", atom, "| op =", repr(atom.op), "| specifier view =",
-      repr(atom.specifier), "| _has_exact_specifier =", _has_exact_specifier(atom))
-print("(`python_full_version < \"=3.8\"` is likewise read as `<=3.8`; there packaging has\n"
-      " the same quirk, evaluation and specifier view agree, so it is not reported.)\n")
-
-print("-" * 78)
-print("Seen but NOT counted (same mechanism as known family 7, operand outside the\n"
-      "quantifier): an ordering operator with a wildcard operand falls back to the\n"
-      "library's lexicographic string table, packaging 26 answers False:")
-m = 'python_full_version >= "3.8.*"'
-e = {"python_full_version": "3.9.0", "python_version": "3.9"}
-print("  ", m, "on 3.9.0: dep_logic", parse_marker(m).evaluate(e), "| packaging",
-      Marker(m).evaluate(e), "| .specifier ->", outcome(lambda: parse_marker(m).specifier))
-print()
-
-# ------------------------------------------------------------------ fuzzers (coverage)
-GRID = [
-    f"{a}.{b}.{c}"
-    for a in (0, 2, 3, 4, 5)
-    for b in (0, 1, 2, 7, 8, 9, 10, 11)
-    for c in (0, 1, 2, 9, 10)
-]
-ENVS = [{"python_full_version": g, "python_version": g.rsplit(".", 1)[0]} for g in GRID]
-
-
-def fuzz_atoms() -> tuple[int, int]:
-    """atom.evaluate == packaging == (value in atom.specifier), forward and reversed."""
-    ops = ["==", "!=", "<", "<=", ">", ">=", "~="]
-    vals = ["3", "3.8", "3.8.0", "3.8.1", "3.10", "3.0", "3.0.0", "4", "2.7", "3.8.*",
-            "3.*", "3.8.0.*", "3.8.1.*", "03.08", "3.08", "3.8.0.0", "3.10.0", "3.9.12",
-            "1!3.8", "0!3.8", "v3.8", " 3.8", "3.8 ", "3.8.00", "3.8.01", "3.8.1.0",
-            "3.08.*", "0", "0.0", "0.*", "1!3.*", "3.8.0.0.0.1", "99999999999999999999.1"]
-    n = bad = 0
-    for name in ("python_version", "python_full_version"):
-        for op in ops:
-            for v in vals:
-                for rev in (False, True):
-                    if "*" in v and op not in ("==", "!="):
-                        continue  # not an atom of the quantifier (see note above)
-                    s = f'"{v}" {op} {name}' if rev else f'{name} {op} "{v}"'
-                    try:
-                        ref = Marker(s)
-                    except Exception:  # noqa: BLE001
-                        continue
-                    m = parse_marker(s)
-                    exact = _has_exact_specifier(m)
-                    for env in ENVS:
-                        n += 1
-                        exp = outcome(lambda: ref.evaluate(env))
-                        got = outcome(lambda: m.evaluate(env))
-                        if isinstance(exp, str):
-                            exp = exp.split(":")[0].rsplit(".", 1)[-1]
-                        if isinstance(got, str):
-                            got = got.split(":")[0].rsplit(".", 1)[-1]
-                        ok = exp == got
-                        if ok and exact and not isinstance(got, str):
-                            ok = (env[name] in m.specifier) == got
-                        if not ok:
-                            bad += 1
-                            print("  ATOM", s, env[name], "packaging", exp, "lib", got)
-                            break
-    return n, bad
+    vals: list[str] = []
+    for a in majors:
+        vals += [a, a + ".*"]
+        for b in minors:
+            vals += [f"{a}.{b}", f"{a}.{b}.*", f" {a}.{b}", f"{a}.{b} ", f"v{a}.{b}",
+                     f"0!{a}.{b}", f"{a}.{b}.0", f"{a}.{b}.0.0", f"{a}.{b}.0.*"]
+            for c in patches:
+                vals += [f"{a}.{b}.{c}", f"{a}.{b}.{c}.*", f"{a}.{b}.{c}.0", f"{a}.{b}.{c}.1"]
+    vals = list(dict.fromkeys(vals))
+    n = 0
+    for name, op, val, rev in itertools.product(
+        ("python_version", "python_full_version"), OPS, vals, (False, True)
+    ):
+        if "*" in val and op not in ("==", "!="):
+            continue  # known family 13
+        s = f'"{val}" {op} {name}' if rev else f'{name} {op} "{val}"'
+        try:
+            pm = Marker(s)
+        except Exception:
+            continue
+        m = parse_marker(s)
+        try:
+            sp = m.specifier
+        except InvalidSpecifier:
+            sp = None
+        exact = _has_exact_specifier(m)
+        for v in envs:
+            e = env(v)
+            n += 1
+            try:
+                pv = pm.evaluate(e)
+            except Exception as ex:
+                pv = type(ex).__name__
+            try:
+                lv = m.evaluate(e)
+            except Exception as ex:
+                lv = type(ex).__name__
+            if pv != lv:
+                report("evaluate", s, "on", v, "packaging", pv, "library", lv)
+            if sp is not None and exact and isinstance(lv, bool) and (e[name] in sp) != lv:
+                report("specifier view", s, repr(sp), "on", v, "in spec", e[name] in sp, "evaluate", lv)
+        if sp is not None and exact:
+            back = MarkerExpression.from_specifier(name, sp)
+            if back is not None:
+                for v in envs:
+                    e = env(v)
+                    n += 1
+                    if back.evaluate(e) != (e[name] in sp):
+                        report("from_specifier", s, repr(sp), "->", back, "on", v)
+                        break
+    return n
 
 
-def fuzz_specifiers(seed: int) -> tuple[int, int, int]:
-    """random &,|,~ trees of simple specifiers -> from_specifier -> atom vs packaging."""
-    rnd = random.Random(seed)
+# --------------------------------------------------------------------------------------
+# 2. atom AND/OR atom (python_version x python_full_version, both orientations):
+#    the merged marker (built through the specifier views) and its rendering re-parsed
+# --------------------------------------------------------------------------------------
+def hunt_merges() -> int:
+    envs = [f"{a}.{b}.{c}" for a in (2, 3, 4) for b in (0, 1, 7, 8, 9, 10, 11) for c in (0, 1, 2, 10)]
+    E = [env(v) for v in envs]
+    vals = ["3", "3.*", "3.0", "3.8", "3.08", "3.8.*", "3.8.0", "3.8.1", "3.8.0.*", "3.9", "3.9.0",
+            "3.10", "3.10.*", "4", "4.0", "4.0.0", "3.8.0.0", "2.7", "3.1", "3.7.10"]
+    if FULL:
+        vals += ["3.8.1.*", "3.8.0.1", "3.9.*"]
+    atoms = []
+    for name, op, val, rev in itertools.product(
+        ("python_version", "python_full_version"), OPS, vals, (False, True)
+    ):
+        if "*" in val and op not in ("==", "!="):
+            continue
+        if rev and not FULL and op not in ("<", ">=", "=="):
+            continue
+        s = f'"{val}" {op} {name}' if rev else f'{name} {op} "{val}"'
+        try:
+            Marker(s)
+            m = parse_marker(s)
+            ev = tuple(m.evaluate(e) for e in E)
+        except Exception:
+            continue
+        atoms.append((s, m, ev))
+    n = 0
+    for (s1, m1, e1), (s2, m2, e2) in itertools.product(atoms, atoms):
+        for how in ("and", "or"):
+            n += 1
+            try:
+                r = (m1 & m2) if how == "and" else (m1 | m2)
+                got = tuple(r.evaluate(e) for e in E)
+                got2 = tuple(parse_marker(str(r)).evaluate(e) for e in E)
+            except Exception as ex:
+                report("exception", s1, how, s2, type(ex).__name__, ex)
+                continue
+            exp = tuple((a and b) if how == "and" else (a or b) for a, b in zip(e1, e2))
+            if got != exp or got2 != exp:
+                i = next(k for k in range(len(E)) if got[k] != exp[k] or got2[k] != exp[k])
+                report("merge", s1, how, s2, "->", r, "on", envs[i], "got", got[i], got2[i], "expected", exp[i])
+    return n
 
-    def rver() -> str:
-        k = rnd.choice([1, 2, 2, 3, 3, 3, 4])
-        parts = [rnd.choice([0, 1, 2, 3, 3, 3, 4]), rnd.choice([0, 1, 7, 8, 9, 10, 11]),
-                 rnd.choice([0, 0, 1, 2, 10]), rnd.choice([0, 0, 1])][:k]
-        v = ".".join(map(str, parts))
-        return (rnd.choice(["1!", "0!"]) + v) if rnd.random() < 0.05 else v
 
-    def rsimple() -> str:
-        op = rnd.choice(["==", "!=", "<", "<=", ">", ">=", "~=", "==*", "!=*"])
-        v = rver()
+# --------------------------------------------------------------------------------------
+# 3. from_specifier on specifiers produced by &, |, ~ (simple forms recognised from
+#    ranges: ==, ~=, !=V, !=X.*), judged by packaging on the source text
+# --------------------------------------------------------------------------------------
+def hunt_derived(cases: int) -> int:
+    rnd = random.Random(11)
+
+    def rv() -> str:
+        k = rnd.choice([1, 2, 2, 3, 3])
+        parts = [str(rnd.choice([2, 3, 3, 3, 4])), str(rnd.randint(0, 13)), str(rnd.randint(0, 12))]
+        return ".".join(parts[:k])
+
+    def rspec() -> str:
+        op = rnd.choice(OPS)
+        v = rv()
+        if op in ("==", "!=") and rnd.random() < 0.3 and v.count(".") < 2:
+            v += ".*"
         if op == "~=" and "." not in v:
-            v += ".%d" % rnd.choice([0, 8])
-        return op[:2] + v + ".*" if op.endswith("*") else op + v
+            v += "." + str(rnd.randint(0, 13))
+        return op + v
 
-    def gen(depth: int):
-        if depth == 0 or rnd.random() < 0.3:
-            s = rsimple()
-            ss = SpecifierSet(s)
-            return parse_version_specifier(s), (lambda v: ss.contains(v, prereleases=True)), s
-        a, fa, sa = gen(depth - 1)
-        k = rnd.random()
-        if k < 0.15:
-            return ~a, (lambda v: not fa(v)), f"~({sa})"
-        b, fb, sb = gen(depth - 1)
-        if k < 0.6:
-            return a & b, (lambda v: fa(v) and fb(v)), f"({sa})&({sb})"
-        return a | b, (lambda v: fa(v) or fb(v)), f"({sa})|({sb})"
-
-    atoms = bad = 0
-    for _ in range(N):
-        spec, f, desc = gen(rnd.choice([1, 2, 2, 3]))
-        if any((g in spec) != f(g) for g in GRID):
-            bad += 1
-            print("  SPEC", desc, "->", spec)
-        for name in ("python_full_version", "python_version"):
-            m = MarkerExpression.from_specifier(name, spec)
+    n = 0
+    for _ in range(cases):
+        k = rnd.choice([1, 2, 2, 3])
+        strs = [rspec() for _ in range(k)]
+        if rnd.random() < 0.5:
+            text, alts = ",".join(strs), [",".join(strs)]
+        else:
+            text, alts = "||".join(strs), strs
+        sp = parse_version_specifier(text)
+        for name in ("python_version", "python_full_version"):
+            m = MarkerExpression.from_specifier(name, sp)
             if m is None:
                 continue
-            atoms += 1
-            again = m if (m.is_any() or m.is_empty()) else parse_marker(str(m))
-            for env in ENVS:
-                val = env[name]
-                r = [m.evaluate(env), again.evaluate(env), f(val)]
-                if isinstance(again, MarkerExpression):
-                    r.append(val in again.specifier)
-                if len(set(r)) != 1:
-                    bad += 1
-                    print("  FROM", name, desc, "->", spec, "->", m, val, r)
+            for _ in range(40):
+                v = f"{rnd.choice([2, 3, 3, 3, 4])}.{rnd.randint(0, 13)}.{rnd.randint(0, 12)}"
+                n += 1
+                exp = any(SpecifierSet(a).contains(v, prereleases=True) for a in alts)
+                if not (exp == m.evaluate({name: v}) == (v in sp)):
+                    report("from_specifier", text, "->", m, "on", v, "packaging", exp,
+                           "atom", m.evaluate({name: v}), "in spec", v in sp)
                     break
-    return N, atoms, bad
+    return n
 
 
-def fuzz_markers(seed: int) -> tuple[int, int]:
-    """random and/or trees of python_version / python_full_version atoms vs packaging."""
-    rnd = random.Random(seed)
-
-    def rver(name: str) -> str:
-        k = rnd.choice([1, 2, 2, 2, 2, 3, 3, 4] if name == "python_version" else [1, 2, 2, 3, 3, 3, 4])
-        parts = [rnd.choice([2, 3, 3, 3, 4]), rnd.choice([0, 1, 7, 8, 9, 10, 11]),
-                 rnd.choice([0, 0, 0, 1, 2, 10]), rnd.choice([0, 0, 1])][:k]
-        v = ".".join(map(str, parts))
-        r = rnd.random()
-        if r < 0.04:
-            v = "0!" + v
-        elif r < 0.08:
-            v = "v" + v
-        elif r < 0.12:
-            v = v.replace(".", ".0", 1)
-        elif r < 0.15:
-            v = " " + v
-        elif r < 0.18:
-            v = v + " "
-        return v
-
-    def atom() -> str:
-        name = rnd.choice(["python_version", "python_full_version"])
-        op = rnd.choice(["==", "!=", "<", "<=", ">", ">=", "~=", "==*", "!=*"])
-        v = rver(name)
-        if op == "~=" and "." not in v:
-            v = v.strip() + ".8"
-        if op.endswith("*"):
-            op, v = op[:2], v.strip() + ".*"
-        if rnd.random() < 0.15 and op != "~=" and "*" not in v:
-            return f'"{v}" {op} {name}'
-        return f'{name} {op} "{v}"'
-
-    def expr(d: int) -> str:
-        if d == 0 or rnd.random() < 0.35:
-            return atom()
-        j = rnd.choice([" and ", " or "])
-        return "(" + j.join(expr(d - 1) for _ in range(rnd.choice([2, 2, 3]))) + ")"
-
-    n = bad = 0
-    for _ in range(N):
-        s = expr(rnd.choice([1, 2, 2]))
-        try:
-            ref = Marker(s)
-        except Exception:  # noqa: BLE001
-            continue
-        n += 1
-        m = outcome(lambda: parse_marker(s))
-        if isinstance(m, str):
-            bad += 1
-            print("  PARSE", s, m)
-            continue
-        s2 = str(m)
-        m2 = parse_marker(s2)
-        for env in ENVS:
-            exp = outcome(lambda: ref.evaluate(env))
-            if isinstance(exp, str):
-                break  # packaging itself cannot evaluate (e.g. `~= "3"`)
-            if not (exp == m.evaluate(env) == m2.evaluate(env)):
-                bad += 1
-                print("  EVAL", s, "->", s2, env["python_full_version"], exp)
-                break
-    return n, bad
-
-
-print("-" * 78)
-print("coverage (all on plain releases; oracle = packaging):")
-n, bad = fuzz_atoms()
-print(f"  single atoms, forward and literal-on-the-left, 33 operand spellings x 7 ops "
-      f"x 2 variables: {n} evaluations, {bad} disagreements")
-n, atoms, bad = fuzz_specifiers(1)
-print(f"  specifier algebra -> from_specifier -> render -> parse: {n} random specifier "
-      f"trees, {atoms} atoms produced, {bad} disagreements")
-n, bad = fuzz_markers(1)
-print(f"  and/or trees of python_version / python_full_version atoms (merging, "
-      f"rendering, re-parsing): {n} markers, {bad} disagreements")
+if __name__ == "__main__":
+    a = hunt_atoms()
+    print(f"atoms: {a} checks")
+    b = hunt_merges()
+    print(f"merges: {b} merged pairs")
+    c = hunt_derived(60000 if FULL else 15000)
+    print(f"derived specifiers: {c} checks")
+    print(f"NEW violations found: {found}")
+    sys.exit(1 if found else 0)
